@@ -341,7 +341,10 @@ def _temporal(ctx, env, nm, vals, variant):
         da.add_effect(EndTiming(), F(g.p, [em.VariableExp(y)]), em.FALSE(), em.Not(em.Equals(em.VariableExp(y), x)), forall=[y])
     else:
         da.set_closed_duration_interval(tvio._num(em, dur_lo), em.Plus(F(g.u), tvio._num(em, dur_hi)))
-        da.add_condition(ClosedTimeInterval(StartTiming(), EndTiming()), g.cond(8, x))
+        # closed, left-open or right-open start-to-end interval (half-open ones exercise both slot guards of the writer)
+        from unified_planning.model import LeftOpenTimeInterval, RightOpenTimeInterval
+        ivl = (ClosedTimeInterval, LeftOpenTimeInterval, RightOpenTimeInterval)[ctx.choice("ivl", 3)]
+        da.add_condition(ivl(StartTiming(), EndTiming()), g.cond(8, x))
         da.add_condition(StartTiming(), g.cond(15, x))
         da.add_decrease_effect(StartTiming(), F(g.n), em.Minus(C("d"), F(g.u)))
         da.add_effect(StartTiming(), F(g.b), em.TRUE(), g.cond(19, x))
